@@ -4,11 +4,18 @@ package internal
 
 import "time"
 
-// VerifTimerHook, when set, observes every EventTimer.Reset (build tag "verif" only).
+// VerifTimerHook, when set, observes every EventTimer.Reset, and every EventTimer.Stop as a
+// negative duration (build tag "verif" only).
 var VerifTimerHook func(timer interface{}, d time.Duration)
 
 func verifTimerReset(t *EventTimer, d time.Duration) {
 	if h := VerifTimerHook; h != nil {
 		h(t, d)
+	}
+}
+
+func verifTimerStop(t *EventTimer) {
+	if h := VerifTimerHook; h != nil {
+		h(t, -1)
 	}
 }
